@@ -94,7 +94,13 @@ func build(fl string) *buildInfo {
 		return string(out), err
 	}
 	info := &buildInfo{hooks: true}
-	out, err := try(f.Tags)
+	tagsWanted := f.Tags
+	if os.Getenv("VERIF_NOHOOKS") != "" {
+		// experiment switch: how much do the public-API monitors see on their own?
+		tagsWanted = strings.TrimPrefix(strings.TrimPrefix(f.Tags, "verif"), ",")
+		info.hooks = false
+	}
+	out, err := try(tagsWanted)
 	if err != nil {
 		// the hook file may no longer compile against a changed tree: fall back to public-API monitors only
 		tags := strings.TrimPrefix(strings.TrimPrefix(f.Tags, "verif"), ",")
